@@ -1,5 +1,13 @@
-"""Static index of fixture ids (importable without jax)."""
+"""Static index of fixture names per group (importable without jax)."""
+_ALL = [
+    "flat", "flat_f64", "net", "outer", "fn_boundary", "fn_kw", "eqx_block", "plain",
+    "ublock_pair", "two_same", "two_diff", "kwblock", "resconv_nchw", "resconv",
+    "chanattn_nchw", "transpose_forest", "reshape_chain", "cf_cond", "cf_fori",
+    "cf_while", "cf_scan", "cf_nested", "fn_boundary_f64",
+]
 INDEX = {
-    "c16": [],
+    "all": _ALL,
+    "c16": _ALL,
     "c16cat": [],
+    "c13": ["flat", "net", "outer", "fn_boundary", "eqx_block", "plain", "jit_cold", "jit_cold2", "flat_f64", "fn_boundary_f64", "cf_nested", "kwblock", "cf_fn_in_scan"],
 }
